@@ -1,4 +1,4 @@
-import EpdVerif.Table
+import EpdVerif.Drivers.Dsl
 import EpdVerif.Spec
 import EpdVerif.Lemmas.UcE2E
 /-!
